@@ -10,6 +10,11 @@
 //!            further val forms (facts / Set literals): `a` = empty array, `a<scalar>^<scalar>…` = array of scalars,
 //!            `o<int>` = Object {"Speed": Number}
 //!   cond  := prefix notation, tokens separated by `,`:  `&` c c | `/` c c | atom
+//!   value classes / operators of the search model (S09): val `z` = `Value::Null` as a PRESENT fact value / Set literal / condition or
+//!            query literal (`F0=z` is not the same as no `F0`); in a string `<word>` `%hh` (two lower-case hex digits) is that ASCII
+//!            character (`sa%3d%3db` = "a==b"); op in RULE CONDITIONS also `co` Contains | `nc` NotContains | `sw` StartsWith | `ew` EndsWith
+//!            | `ma` Matches | `in` In (literal: an array `a…`); queries keep the six comparison operators and literals without
+//!            operator characters (they go through the query-language parser, C05's subject)
 //! obs   := `<provable 1|0|err> <facts after, sorted by field index> <undo depth after> <#solutions>`
 //! Rule i is named `R<i>`; field i is FIELDS[i].
 //!
@@ -50,13 +55,42 @@ fn parse_scalar(s: &str) -> Option<Value> {
         'f' if s == "f" => Some(Value::Boolean(false)),
         'n' => Some(Value::Number(s[1..].parse::<i64>().ok()? as f64)),
         'i' => Some(Value::Integer(s[1..].parse().ok()?)),
-        's' => Some(Value::String(s[1..].replace('_', " "))),
+        's' => Some(Value::String(dec_word(&s[1..])?)),
         _ => None,
     }
 }
 
+/// `<word>` of a string literal: `_` = blank, `%hh` = the ASCII character with that (lower-case hex) code, the rest verbatim
+fn dec_word(w: &str) -> Option<String> {
+    let b = w.as_bytes();
+    let mut out = String::new();
+    let mut i = 0;
+    while i < b.len() {
+        match b[i] {
+            b'_' => out.push(' '),
+            b'%' => {
+                let h = std::str::from_utf8(b.get(i + 1..i + 3)?).ok()?;
+                out.push(u8::from_str_radix(h, 16).ok().filter(|c| c.is_ascii())? as char);
+                i += 2;
+            }
+            c if c.is_ascii_alphanumeric() => out.push(c as char),
+            _ => return None,
+        }
+        i += 1;
+    }
+    Some(out)
+}
+
+/// the canonical `<word>` of a printable-ASCII string
+pub fn enc_word(s: &str) -> String {
+    s.chars()
+        .map(|c| if c.is_ascii_alphanumeric() { c.to_string() } else if c == ' ' { "_".to_string() } else { format!("%{:02x}", c as u32) })
+        .collect()
+}
+
 fn parse_val(s: &str) -> Option<Value> {
     match s.chars().next()? {
+        'z' if s == "z" => Some(Value::Null),
         'a' if s == "a" => Some(Value::Array(Vec::new())),
         'a' => Some(Value::Array(s[1..].split('^').map(parse_scalar).collect::<Option<Vec<_>>>()?)),
         'o' => {
@@ -74,7 +108,8 @@ fn show_val(v: &Value) -> String {
         Value::Boolean(false) => "f".into(),
         Value::Number(x) if x.fract() == 0.0 && x.abs() < 1e15 => format!("n{}", *x as i64),
         Value::Integer(i) => format!("i{}", i),
-        Value::String(s) if s.chars().all(|c| c.is_ascii_alphanumeric() || c == ' ') => format!("s{}", s.replace(' ', "_")),
+        Value::Null => "z".into(),
+        Value::String(s) if s.chars().all(|c| c.is_ascii_graphic() || c == ' ') => format!("s{}", enc_word(s)),
         Value::Array(l) if l.iter().all(|e| !matches!(e, Value::Array(_) | Value::Object(_))) => {
             format!("a{}", l.iter().map(show_val).collect::<Vec<_>>().join("^"))
         }
@@ -99,6 +134,12 @@ fn parse_op(s: &str) -> Option<Operator> {
         "lt" => Operator::LessThan,
         "ge" => Operator::GreaterThanOrEqual,
         "le" => Operator::LessThanOrEqual,
+        "co" => Operator::Contains,
+        "nc" => Operator::NotContains,
+        "sw" => Operator::StartsWith,
+        "ew" => Operator::EndsWith,
+        "ma" => Operator::Matches,
+        "in" => Operator::In,
         _ => return None,
     })
 }
@@ -265,6 +306,13 @@ fn parse_query(t: &str, nm: &[&str; 11]) -> Option<String> {
         None => ("", t),
     };
     let (qf, qop, qv) = parse_atom(qa)?;
+    if !matches!(
+        qop,
+        Operator::Equal | Operator::NotEqual | Operator::GreaterThan | Operator::LessThan | Operator::GreaterThanOrEqual | Operator::LessThanOrEqual
+    ) || matches!(qv, Value::Array(_) | Value::Object(_))
+    {
+        return None;
+    }
     Some(format!("{}{} {} {}", neg, nm[qf], op_str(&qop), lit_str(&qv)))
 }
 
@@ -1240,6 +1288,184 @@ fn gen_disabled(rng: &mut Rng) -> (String, u64) {
 
 // ------------------------------------------------ histories on one engine (reach audit) and keyword-like field names
 
+
+/// strings of the value-class family, as text: plain ones, "null" (which `==` takes for Null as soon as the other side is
+/// `Value::Null`), strings with blanks at the ends, and strings that CONTAIN operator text of `parse_goal_pattern`'s table
+/// (the goal-pattern round trip of a rule condition cuts the text at the first table operator it finds), quotes included.
+/// Strings that read like another literal class: "true", "false", "null", "42", "-7" (whole numbers only: `Value::to_number`
+/// parses strings, the model does it for `-?[0-9]+`).
+const VSTRS: [&str; 26] = [
+    "ab", "abc", "a b", "b", "", "null", " x ", "a==b", "x>=y", ">=", "a > b", "!=", "a contains b", "\"", "a\"b", "'q'", "a<=b", "==",
+    "b c", "a < b", "true", "a matches b", "42", "-7", "false", "42",
+];
+
+fn vstr(rng: &mut Rng) -> String {
+    format!("s{}", enc_word(*rng.pick(&VSTRS)))
+}
+
+/// a value of any class of the model: Null, booleans, numbers (negative too), Integer, strings of VSTRS
+fn vval(rng: &mut Rng) -> String {
+    match rng.below(12) {
+        0..=2 => "z".into(),
+        3 => "t".into(),
+        4 => "f".into(),
+        5 => format!("n{}", rng.range(0, 2) as i64 - 1),
+        6 => format!("i{}", rng.below(2)),
+        _ => vstr(rng),
+    }
+}
+
+/// a rule condition atom on field `f` with any of the twelve operators
+fn vatom(rng: &mut Rng, f: u64) -> String {
+    match rng.below(10) {
+        0..=2 => format!("F{}.{}.{}", f, *rng.pick(&["eq", "eq", "ne"]), vval(rng)),
+        3 => {
+            let n = rng.range(1, 3);
+            let es: Vec<String> = (0..n).map(|_| if rng.chance(2, 3) { vstr(rng) } else { (*rng.pick(&["t", "n1", "i1", "n-1"])).to_string() }).collect();
+            format!("F{}.in.a{}", f, es.join("^"))
+        }
+        4 => format!("F{}.{}.{}", f, *rng.pick(&["gt", "lt", "ge", "le"]), *rng.pick(&["n0", "n1", "n-1", "i0", "z", "t"])),
+        _ => format!("F{}.{}.{}", f, *rng.pick(&["co", "nc", "sw", "ew", "ma"]), vstr(rng)),
+    }
+}
+
+/// value-class family (Null as a present value; string operators and `In` in rule conditions that become sub-goals; string
+/// literals with operator text / quotes / blanks).  Returns the body; every body is asked under every strategy.
+fn gen_valops(rng: &mut Rng) -> String {
+    match rng.below(10) {
+        // string literals that READ LIKE another literal class (boolean, null, number, keyword) in EQUALITY conditions that become
+        // sub-goals, and as the assigned values: consistent-Horn chains, so the completeness clause (iv) speaks (seeded change C09-13:
+        // such literals printed without quotes come back as Boolean / Number / Null)
+        8 | 9 => {
+            const LOOKALIKE: [&str; 9] = ["true", "false", "null", "42", "-7", "0", "1e3", "contains", "NOT"];
+            let l1 = *rng.pick(&LOOKALIKE);
+            let l2 = *rng.pick(&LOOKALIKE);
+            let mut rules = vec![format!("F6.eq.n1~F0:=s{}", enc_word(l1)), format!("F0.eq.s{}~F5:=t", enc_word(l1))];
+            let mut q = "F5.eq.t".to_string();
+            if rng.chance(1, 2) {
+                rules.push(format!("F5.eq.t~F1:=s{}", enc_word(l2)));
+                if rng.chance(1, 2) {
+                    rules.push(format!("&,F1.eq.s{},F0.eq.s{}~F2:=t", enc_word(l2), enc_word(l1)));
+                    q = "F2.eq.t".to_string();
+                } else {
+                    q = format!("F1.eq.s{}", enc_word(l2));
+                }
+            }
+            rng.shuffle(&mut rules);
+            return format!("F6=n1 {} {}", q, rules.join(";"));
+        }
+        // a rule condition with a string operator that the facts do not satisfy: another rule has to derive the string
+        // (sub-goal through the goal-pattern text), or derives a string that does not fit
+        0 | 1 => {
+            let lit = rng.pick(&VSTRS).to_string();
+            let made = match rng.below(5) {
+                0 => rng.pick(&VSTRS).to_string(),
+                1 => lit.clone(),
+                2 => format!("a{}", lit),
+                3 => format!("{}b", lit),
+                _ => format!("a {} b", lit),
+            };
+            let op = *rng.pick(&["co", "nc", "sw", "ew", "ma", "eq", "ne", "in"]);
+            let cond = if op == "in" {
+                let mut es = vec![format!("s{}", enc_word(&lit))];
+                if rng.chance(1, 2) {
+                    es.push(vstr(rng));
+                }
+                if rng.chance(1, 3) {
+                    es.push("n1".into());
+                }
+                rng.shuffle(&mut es);
+                format!("F0.in.a{}", es.join("^"))
+            } else {
+                format!("F0.{}.s{}", op, enc_word(&lit))
+            };
+            let mut rules = vec![format!("F6.eq.n1~F0:=s{}", enc_word(&made)), format!("{}~F5:=t", cond)];
+            if rng.chance(1, 3) {
+                rules.push("F7.eq.t~F5:=t".to_string());
+            }
+            rng.shuffle(&mut rules);
+            let init = match rng.below(6) {
+                0 => ",F0=z".to_string(),
+                1 => format!(",F0={}", vstr(rng)),
+                2 => ",F0=n1".to_string(),
+                _ => String::new(),
+            };
+            format!("F6=n1{} F5.eq.t {}", init, rules.join(";"))
+        }
+        // a fact that is Null (or "null", or absent) before the query is the conclusion of a rule fired during a FAILING proof
+        // attempt (the attempt's second condition is a dead end): it must come back as it was
+        2 | 3 => {
+            let init = *rng.pick(&["F0=z", "F0=z", "F0=z", "F0=snull", "", "F0=t"]);
+            let w = vval(rng);
+            let first = format!("F0.eq.{}", w);
+            let dead = *rng.pick(&["F7.eq.t", "F7.eq.z", "F7.co.sa"]);
+            let mut rules = vec![
+                format!("F6.eq.n1~F0:={}", w),
+                if rng.chance(1, 2) { format!("&,{},{}~F5:=t", first, dead) } else { format!("&,{},{}~F5:=t", dead, first) },
+            ];
+            if rng.chance(1, 2) {
+                rules.push(format!("F6.eq.n1~F1:={}+F0:={}", vval(rng), vval(rng)));
+                rules.push("&,F1.ne.z,F7.eq.t~F5:=t".to_string());
+            }
+            if rng.chance(1, 4) {
+                rules.push("F6.eq.n1~F0!".to_string());
+            }
+            rng.shuffle(&mut rules);
+            let facts = if init.is_empty() { "F6=n1".to_string() } else { format!("F6=n1,{}", init) };
+            format!("{} F5.eq.t {}", facts, rules.join(";"))
+        }
+        // the goal itself is about Null: present Null, absent, the string "null", another value; a rule may set Null / "null" /
+        // retract the field / set something else
+        4 => {
+            let init = *rng.pick(&[",F0=z", ",F0=z", "", ",F0=snull", ",F0=t", ",F0=sab"]);
+            let act = *rng.pick(&["F0:=z", "F0:=z", "F0:=snull", "F0!", "F0:=t", "F1:=z"]);
+            let q = format!("F0.{}.{}", *rng.pick(&["eq", "eq", "ne"]), *rng.pick(&["z", "z", "snull", "t", "sab"]));
+            let rules = if rng.chance(1, 5) { "-".to_string() } else { format!("F6.eq.n1~{}", act) };
+            format!("F6=n1{} {} {}", init, q, rules)
+        }
+        // a rule condition about Null that is a sub-goal
+        5 => {
+            let act = *rng.pick(&["F0:=z", "F0:=z", "F0:=snull", "F0!", "F0:=t"]);
+            let init = *rng.pick(&["", "", ",F0=z", ",F0=t", ",F0=snull"]);
+            let c = format!("F0.{}.{}", *rng.pick(&["eq", "eq", "ne"]), *rng.pick(&["z", "z", "snull", "t"]));
+            let mut rules = vec![format!("F6.eq.n1~{}", act), format!("{}~F5:=t", c)];
+            rng.shuffle(&mut rules);
+            format!("F6=n1{} F5.eq.t {}", init, rules.join(";"))
+        }
+        // random knowledge bases over all value classes and all twelve operators
+        _ => {
+            let nf = rng.range(2, 4);
+            let nrules = rng.range(1, 5);
+            let mut rules = Vec::new();
+            for _ in 0..nrules {
+                let (f1, f2) = (rng.below(nf), rng.below(nf));
+                let c = if rng.chance(1, 3) {
+                    let (a1, a2) = (vatom(rng, f1), vatom(rng, f2));
+                    format!("{},{},{}", if rng.chance(2, 3) { "&" } else { "/" }, a1, a2)
+                } else {
+                    vatom(rng, f1)
+                };
+                let mut acts = format!("F{}:={}", rng.below(nf), vval(rng));
+                if rng.chance(1, 4) {
+                    acts.push_str(&format!("+F{}:={}", rng.below(nf), vval(rng)));
+                }
+                if rng.chance(1, 8) {
+                    acts.push_str(&format!("+F{}!", rng.below(nf)));
+                }
+                rules.push(format!("{}~{}", c, acts));
+            }
+            let mut facts = vec!["F6=n1".to_string()];
+            for f in 0..nf {
+                if rng.chance(1, 2) {
+                    facts.push(format!("F{}={}", f, vval(rng)));
+                }
+            }
+            let qv = *rng.pick(&["t", "t", "f", "z", "z", "n1", "sab", "snull", "sb"]);
+            format!("{} F{}.{}.{} {}", facts.join(","), rng.below(nf), *rng.pick(&["eq", "eq", "eq", "ne"]), qv, rules.join(";"))
+        }
+    }
+}
+
 fn rand_cfg(rng: &mut Rng) -> String {
     format!("{}{}s{}", *rng.pick(&["D", "D", "D", "B", "I"]), rng.range(1, 5), *rng.pick(&[1, 1, 1, 3]))
 }
@@ -1623,6 +1849,18 @@ fn gen(rng: &mut Rng, n: usize, _tier: &str) -> Vec<String> {
             let t: Vec<&str> = body.split(' ').collect();
             out.push(format!("D{}s{} {} !{} {}", d, *rng.pick(&[1, 3]), t[0], t[1], t[2]));
         }
+    }
+    // value-class family (S09): Null as a present value, string operators / `In` / operator text in string literals of rule
+    // conditions that become sub-goals; every problem under EVERY strategy, DFS also with max_solutions 3 now and then
+    for _ in 0..n / 6 {
+        let body = gen_valops(rng);
+        let d = rng.range(2, 5);
+        out.push(format!("D{}s1 {}", d, body));
+        if rng.chance(1, 3) {
+            out.push(format!("D{}s{} {}", rng.below(7), *rng.pick(&[1, 3]), body));
+        }
+        out.push(format!("B{}s1 {}", d, body));
+        out.push(format!("I{}s1 {}", d, body));
     }
     // history family (reach audit): knowledge-base edits / rebuild_index / set_config between queries on ONE engine
     for i in 0..n / 6 {
